@@ -55,6 +55,12 @@ pub struct Entry {
     pub reply: Reply,
     pub inv: u64,
     pub res: u64,
+    /// The request was cancelled in flight (its future was dropped / its connection was cut):
+    /// there is no response. Such an op may take effect at any instant after `inv`, or never;
+    /// `reply` is meaningless and `res` is `u64::MAX`. Only writes are recorded this way
+    /// (a cancelled read is simply not part of the history).
+    #[serde(default)]
+    pub pending: bool,
 }
 
 pub type St = Option<Vec<u8>>;
@@ -131,6 +137,16 @@ fn reply_matches(spec: &Reply, got: &Reply) -> bool {
 }
 
 /// Successor state iff the recorded reply is what the operation returns in `state`.
+/// An op without response (`pending`) has no reply to contradict: it just takes effect.
+pub fn step_entry(state: &St, e: &Entry) -> Option<St> {
+    if e.pending {
+        Some(spec(state, &e.op).1)
+    } else {
+        step(state, &e.op, &e.reply)
+    }
+}
+
+/// Successor state iff the recorded reply is what the operation returns in `state`.
 pub fn step(state: &St, op: &MOp, reply: &Reply) -> Option<St> {
     let (r, s) = spec(state, op);
     if reply_matches(&r, reply) {
@@ -154,8 +170,9 @@ impl Bits {
         b.0[i / 64] |= 1 << (i % 64);
         b
     }
-    fn count(&self) -> usize {
-        self.0.iter().map(|w| w.count_ones() as usize).sum()
+    /// number of ops of `of` that are in `self`
+    fn count_in(&self, of: &Bits) -> usize {
+        self.0.iter().zip(of.0.iter()).map(|(w, m)| (w & m).count_ones() as usize).sum()
     }
 }
 
@@ -171,6 +188,10 @@ pub enum Verdict {
 /// Wing–Gong / Lowe: repeatedly pick a *minimal* remaining operation (one whose invocation
 /// precedes every remaining operation's response), apply it if its recorded reply matches the
 /// model, recurse; memoise on (set of linearised ops, model state).
+///
+/// Ops without response (`pending`, `res = u64::MAX`) are optional: they never constrain another
+/// op's position from above, may be linearised anywhere after their invocation, and the search
+/// succeeds as soon as every op *with* a response has been ordered.
 pub fn check_key(entries: &[Entry], initial: &St, budget: usize) -> Verdict {
     let n = entries.len();
     if n == 0 {
@@ -182,6 +203,16 @@ pub fn check_key(entries: &[Entry], initial: &St, budget: usize) -> Verdict {
     let mut order: Vec<usize> = (0..n).collect();
     order.sort_by_key(|&i| (entries[i].inv, entries[i].res));
     let es: Vec<&Entry> = order.iter().map(|&i| &entries[i]).collect();
+    let mut required = Bits::default();
+    for (i, e) in es.iter().enumerate() {
+        if !e.pending {
+            required = required.with(i);
+        }
+    }
+    let n_required = required.count_in(&required);
+    if n_required == 0 {
+        return Verdict::Linearizable;
+    }
 
     let candidates = |done: &Bits| -> Vec<usize> {
         let mut min_res = u64::MAX;
@@ -226,12 +257,12 @@ pub fn check_key(entries: &[Entry], initial: &St, budget: usize) -> Verdict {
         }
         let i = top.cands[top.pos];
         top.pos += 1;
-        let Some(next_state) = step(&top.state, &es[i].op, &es[i].reply) else {
+        let Some(next_state) = step_entry(&top.state, es[i]) else {
             continue;
         };
         let done = top.done.with(i);
-        let cnt = done.count();
-        if cnt == n {
+        let cnt = done.count_in(&required);
+        if cnt == n_required {
             return Verdict::Linearizable;
         }
         if !visited.insert((done, next_state.clone())) {
@@ -255,9 +286,9 @@ pub fn check_key(entries: &[Entry], initial: &St, budget: usize) -> Verdict {
     // explanation: at the deepest point reached, why can none of the minimal ops go next?
     let (cnt, done, state) = best;
     let mut why = format!(
-        "no linearization: at most {} of {} operations can be ordered; then the key holds {} and every operation that may come next contradicts its recorded reply:\n",
+        "no linearization: at most {} of {} answered operations can be ordered; then the key holds {} and every operation that may come next contradicts its recorded reply:\n",
         cnt,
-        n,
+        n_required,
         match &state {
             Some(v) => format!("\"{}\"", vcore::show(v)),
             None => "(missing)".to_string(),
@@ -265,6 +296,9 @@ pub fn check_key(entries: &[Entry], initial: &St, budget: usize) -> Verdict {
     );
     for i in candidates(&done) {
         let e = es[i];
+        if e.pending {
+            continue;
+        }
         let (r, _) = spec(&state, &e.op);
         why.push_str(&format!(
             "        {} [{},{}] {} replied {} but would reply {} here\n",
@@ -284,6 +318,15 @@ pub fn show_history(entries: &[Entry]) -> String {
     v.sort_by_key(|e| (e.inv, e.res));
     let mut s = String::new();
     for e in v {
+        if e.pending {
+            s.push_str(&format!(
+                "        [{:>4},   ∞) {} {} -> (cancelled in flight: no response)\n",
+                e.inv,
+                if e.client == usize::MAX { "final read".to_string() } else { format!("client {}", e.client) },
+                e.op.show()
+            ));
+            continue;
+        }
         s.push_str(&format!(
             "        [{:>4},{:>4}] {} {} -> {}\n",
             e.inv,
